@@ -6,7 +6,11 @@
      dec <hex bytes>      -> dec ok <hex c> <len> | dec err         decode_utf8
      id <hex c>           -> id <0|1> <0|1>                         is_ident1 is_ident2
      u16 <hex c>          -> u16 <hex unit> ...                     units stored by read_utf16_string_literal
-     int <hex bytes>      -> int <hex val> <ty> | int no            convert_pp_int on the token text
+     int <hex bytes>      -> int <hex val> <ty> | int no            convert_pp_int on the token text; runs the *translated* function
+                                                                    (Gen/PpNumGen.lean) with the Lean model of glibc strtoul
+     inta <loc> <len> <hex> -> inta <hex val> <ty> | inta no        convert_pp_int on the token text[loc, loc+len) inside its text (translated)
+     stl <base> <hex>     -> stl <hex val> <end>                    libc strtoul(text, &end, base) against Model/PpNumber.lean `strtoulC`
+     ppn <start> <hex>    -> ppn <end> | ppn no                     tokenize(): the pp-number arm at text + start (translated start test and scan)
      esc <hex bytes>      -> esc <hex val32> <consumed> | esc err   read_escaped_char (text after the backslash); runs the
                                                                     *translated* function (Gen/LitReadersGen.lean)
      fhex <hex byte>      -> fhex <hex val32>                       from_hex (translated)
@@ -15,8 +19,9 @@
      rsl n|u16|u32 <quote> <hex> -> rsl <n> <units> <end> | rsl err <e>   read_string_literal / read_utf16_… / read_utf32_…(text, text + quote) (translated)
      rcl <quote> <hex>    -> rcl <hex c> <index of closing quote> | rcl err <e>   read_char_literal(text, text + quote, ty) (translated)
      lit <hex bytes>      -> lit int|flt|chr|str ... | lit err <e>  tokenize() on a text that starts with a literal
-     text <hex bytes>     -> text <hex bytes> | text oob            BOM skip + phases of tokenize_file; runs the *translated*
-                                                                    in-place loops (Gen/LitReadersGen.lean); oob = a store outside the text
+     text <hex bytes>     -> text <hex bytes> | text oob            read_file's final newline + tokenize_file as *translated* from clang's AST
+                                                                    (Gen/PpNumGen.lean `tokenizeFileText`: BOM test, the three in-place loops
+                                                                    of Gen/LitReadersGen.lean in the order of the calls); oob = a store outside the text
      join <hex> <hex> ... -> join <ty> <n> <hex units> | join err   join_adjacent_string_literals on adjacent literals
      file <hex bytes>     -> file <hex text> int|flt|chr|str ... | file <hex text> other | file err <e>
                                                                     tokenize_file: phases, then the first token
@@ -24,6 +29,7 @@
 import ChibiVerif.Model.Literals
 import ChibiVerif.Model.Text
 import ChibiVerif.Model.LitReaders
+import ChibiVerif.Model.PpNumber
 
 namespace ChibiVerif.Driver
 open ChibiVerif.Gen.Literals
@@ -77,7 +83,7 @@ def showStr (t : StrTok) : String :=
   s!"{tyName t.elem} {t.units.length + 1} {unitsStr t.units}"
 
 def litLine (p : List Byte) : String :=
-  match lexLiteral p with
+  match ChibiVerif.PpNumber.lexLiteralC p with
   | .ok (.int v ty n) => s!"lit int {hexOf v.toNat} {tyName ty} {n}"
   | .ok (.flt n) => s!"lit flt {n}"
   | .ok (.chr v ty n) => s!"lit chr {hexOf v.toNat} {tyName ty} {n}"
@@ -85,8 +91,9 @@ def litLine (p : List Byte) : String :=
   | .error e => s!"lit err {errName e}"
 
 def fileLine (bytes : List Byte) : String :=
-  let y := ChibiVerif.Text.phase12 bytes
-  match lexLiteral y with
+  -- (`phase12 bytes` = `fileText bytes` for every NUL-free content: C11_phase_order; a store outside the text would be `none`)
+  let y := (ChibiVerif.PpNumber.fileText bytes).getD []
+  match ChibiVerif.PpNumber.lexLiteralC y with
   | .ok (.int v ty n) => s!"file {bytesHex y} int {hexOf v.toNat} {tyName ty} {n}"
   | .ok (.flt n) => s!"file {bytesHex y} flt {n}"
   | .ok (.chr v ty n) => s!"file {bytesHex y} chr {hexOf v.toNat} {tyName ty} {n}"
@@ -127,10 +134,26 @@ def literalsLine (ws : List String) : String :=
   | ["int", h] =>
     match parseBytes h with
     | some p =>
-      match convertPpInt p with
+      match ChibiVerif.PpNumber.convertPpIntC p 0 p.length with
       | some (v, ty) => s!"int {hexOf v.toNat} {tyName ty}"
       | none => "int no"
     | none => "bad-op"
+  | ["inta", a, b, h] =>
+    match a.toNat?, b.toNat?, parseBytes h with
+    | some loc, some len, some p =>
+      match ChibiVerif.PpNumber.convertPpIntC p loc len with
+      | some (v, ty) => s!"inta {hexOf v.toNat} {tyName ty}"
+      | none => "inta no"
+    | _, _, _ => "bad-op"
+  | ["stl", b, h] =>
+    match b.toNat?, parseBytes h with
+    | some base, some p => let r := ChibiVerif.PpNumber.strtoulC p 0 base; s!"stl {hexOf r.1.toNat} {r.2}"
+    | _, _ => "bad-op"
+  | ["ppn", a, h] =>
+    match a.toNat?, parseBytes h with
+    | some start, some p =>
+      if ChibiVerif.Gen.PpNum.ppNumberStart p start then s!"ppn {ChibiVerif.Gen.PpNum.ppNumberEnd p start}" else "ppn no"
+    | _, _ => "bad-op"
   | ["esc", h] =>
     match parseBytes h with
     | some p =>
@@ -178,8 +201,7 @@ def literalsLine (ws : List String) : String :=
   | ["text", h] =>
     match parseBytes h with
     | some p =>
-      match ChibiVerif.Gen.LitReaders.canonicalizeNewline (ChibiVerif.Text.skipBOM (ChibiVerif.Text.ensureFinalNewline p)) >>=
-          ChibiVerif.Gen.LitReaders.removeBackslashNewline >>= ChibiVerif.Gen.LitReaders.convertUniversalChars with
+      match ChibiVerif.PpNumber.fileText p with
       | some y => s!"text {bytesHex y}"
       | none => "text oob"
     | none => "bad-op"
